@@ -1,7 +1,8 @@
 (* model-side driver for C10: line protocol, one case per line (fields separated by TAB)
-     seq    <cap> <ops>                      single-goroutine history: s<v> | r | i | c   (comma separated)
+     seq    <fused> <cap> <ops>              single-goroutine history: s<v> | r | i | c   (comma separated)
      accept <progs> <logs>                   observed per-receiver logs against the acceptor
-     reach  <cap> <progs> <kinds>            all outcomes of the fixed protocol (senders, closer, receivers)
+     reach  <fused> <cap> <progs> <kinds>    all outcomes of the fixed protocol (senders, closer, receivers)
+   fused = 0: ForIter is Chan.Next then Chan.Entry (two steps); 1: one step (Chan.NextEntry, the repair)
      spawn  <copy> <vals> <args> <assigns> <pokes> <kind> <nwait>
    progs: senders separated by ';', values by ','.   logs: receivers by ';', entries i:v by ','. *)
 open Chan_model
@@ -53,11 +54,11 @@ let ev_str (e : ev) : string =
   | EvIterCtx _ -> "iterctx"
 
 (* ---- seq *)
-let do_seq cap ops =
+let do_seq fused cap ops =
   let ops = split ',' ops in
   let vals = List.filter_map (fun o -> if String.length o > 0 && o.[0] = 's'
                                then Some (n_of_int (int_of_string (String.sub o 1 (String.length o - 1)))) else None) ops in
-  let s = ref (chan_init (nat_of_int cap) (fun i -> match i with O -> vals | _ -> [])) in
+  let s = ref (chan_init fused (nat_of_int cap) (fun i -> match i with O -> vals | _ -> [])) in
   let out = ref [] in
   let blocked = ref false in
   let stepa a =
@@ -89,10 +90,10 @@ let do_accept progs logs =
 (* ---- reach: exhaustive exploration of the protocol
    sender i sends its program; the closer closes once every sender is done; receiver j of kind 'r' receives
    until nil, of kind 'i' ranges until the loop ends *)
-let do_reach cap progs kinds =
+let do_reach fused cap progs kinds =
   let progs = parse_progs progs in
   let ns = List.length progs and nr = String.length kinds in
-  let s0 = chan_init (nat_of_int cap) (prog_fun progs) in
+  let s0 = chan_init fused (nat_of_int cap) (prog_fun progs) in
   let key (s : st) (fin : bool array) =
     let b = Buffer.create 64 in
     List.iter (fun (i, v) -> Buffer.add_string b (Printf.sprintf "%d.%d," (int_of_nat i) (int_of_n v))) s.buf;
@@ -194,9 +195,9 @@ let () =
        let r =
          try
            match f.(0) with
-           | "seq" -> do_seq (int_of_string f.(1)) (get 2)
+           | "seq" -> do_seq (get 1 = "1") (int_of_string f.(2)) (get 3)
            | "accept" -> do_accept (get 1) (get 2)
-           | "reach" -> do_reach (int_of_string f.(1)) (get 2) (get 3)
+           | "reach" -> do_reach (get 1 = "1") (int_of_string f.(2)) (get 3) (get 4)
            | "spawn" -> do_spawn (get 1) (get 2) (get 3) (get 4) (get 5) (get 6) (int_of_string (get 7))
            | _ -> "BADCMD"
          with Failure m -> "FAIL " ^ m | Not_found -> "FAIL notfound" | Invalid_argument m -> "FAIL " ^ m in
